@@ -101,9 +101,10 @@ func suiteC13(c *Ctx) {
 	// real items around the length-byte boundaries, encoded and decoded again
 	sizes := []int{254, 255, 256, 257, 65534, 65535, 65536, 65537}
 	if c.thorough {
-		// the model costs ~40 us per element: 4M elements is a few minutes; the limit itself
-		// (16,777,215) is exercised on the library by the limit probes of the monitor
-		sizes = append(sizes, 1<<20, 1<<22)
+		// the model is slow on long items (well over a minute per million elements, and more than linear): the
+		// thorough tier goes to 2^18 elements; the limit itself (16,777,215) is exercised on the library by
+		// the limit probes of the monitor
+		sizes = append(sizes, 1<<17, 1<<18)
 	}
 	for _, sp := range leafSpecs {
 		for _, total := range sizes {
@@ -380,11 +381,11 @@ func suiteC02(c *Ctx) {
 		c.emit(Case{"exhaustive-2byte", []Step{{Op: "NI", W: 2, Args: ai}, {Op: "NU", W: 2, Args: au}}, false})
 	}
 	// random trees and messages, complete and incomplete
-	n := c.scale(1500, 60000)
+	n := c.scale(1500, 10000)
 	for i := 0; i < n; i++ {
 		g := c.gen()
 		withVars := g.chance(0.25)
-		it := g.tree(treeOpts{depth: g.pick(5), vars: withVars, ellipsis: withVars && g.chance(0.3), maxLeaf: c.scale(600, 70000)})
+		it := g.tree(treeOpts{depth: g.pick(5), vars: withVars, ellipsis: withVars && g.chance(0.3), maxLeaf: c.scale(600, 6000)})
 		switch g.pick(4) {
 		case 0:
 			m := g.hsmsMsg(it)
@@ -431,7 +432,7 @@ func suiteC01(c *Ctx) {
 			c.emit(Case{"roundtrip-large", g.steps, false})
 		}
 	}
-	n := c.scale(1200, 50000)
+	n := c.scale(1200, 8000)
 	for i := 0; i < n; i++ {
 		g := c.gen()
 		var m int
@@ -459,7 +460,7 @@ func suiteC01(c *Ctx) {
 				}
 				g.count("deep-chain")
 			} else {
-				it = g.tree(treeOpts{depth: depth, maxLeaf: c.scale(400, 70000)})
+				it = g.tree(treeOpts{depth: depth, maxLeaf: c.scale(400, 6000)})
 			}
 			m = g.hsmsMsg(it)
 		}
@@ -546,7 +547,7 @@ func itemText(s string) string {
 // ---------- C03 ----------
 
 func suiteC03(c *Ctx) {
-	nmsg := c.scale(260, 12000)
+	nmsg := c.scale(260, 2500)
 	budget := c.scale(60, 150)
 	var steps []Step
 	nflush := 0
